@@ -64,7 +64,7 @@ def runs_ok(chk, results, monitor):
 def c08(pid, tier, seed):
     chk = C.Check(pid, tier, seed)
     chk.rule = ("exhaustive enumeration of (importing file, imported file) pairs: directories of 0..d-1 components over {., .., a, b, a.b, ..a, ...}, "
-                "file names over {a, b, a.b, ts, x.ts, yts, z.ts.ts, b.ts, ..f.ts} / {a.ts, b.ts, a.b.ts, ts.ts, x.ts, yts.ts, z.ts.ts, .ts, ..f.ts}, 7 base "
+                "file names over {a, b, a.b, ts, x.ts, yts, z.ts.ts, b.ts, ..f.ts} / {a.ts, b.ts, a.b.ts, ts.ts, x.ts, yts.ts, z.ts.ts, .ts, ..f.ts}, 8 base "
                 "directory spellings, import-esm off and on (two builds); the real import_path (verif hook) is judged by an independent lexical "
                 "resolver, 1% re-judged with Python posixpath, 0.05% against the real file system. distinct_nontrivial = distinct "
                 "(base, from-directory, import-directory, import file name class) whose normalisation contains a `..` or `.` segment or a dotted name")
